@@ -237,7 +237,8 @@ def cfg_obj():
 
 CONTRACTS = [
     Contract(id='K11', target='taskchain.task:Task.path', props={'C12': 'decisive'},
-             inputs={'self': Obj('taskchain.task:Task', _config=Abs(CfgBase, 'cfg'), slugname=S(Str, 'slugname'))},
+             inputs={'self': Obj('taskchain.task:Task', _config=Abs(CfgBase, 'cfg'), slugname=S(Str, 'slugname'), group=S(Str, 'group'),
+                              fullname=S(Str, 'fullname'))},
              ensures={'path': 'k11_path'}, ensures_raise={'no_base_dir': 'k11_raises'}, l0=['A-path']),
 ]
 
